@@ -90,6 +90,47 @@ class Guard:
         self.panics = Region.empty(f_integer)   # values of f on which check_ref neither accepts nor rejects but overflows
         self.lossy_locals = {}   # local id -> conversion name: bound to a narrowed copy of a parameter
         self.lossy_tests = set()  # (path, conversion): a range test evaluated on a narrowed copy
+        self.lin_locals = {}     # local id -> (a, b, others): the local holds a * f + b, the other parameters at their witnesses
+        self.coef_params = set()  # other parameters whose witness value entered a guard through arithmetic
+
+    # ---- arithmetic over parameters: a * f + b with every other parameter at its witness value
+    def lin_of(self, n, depth=0):
+        n = peel_refs(n)
+        if depth > 8:
+            return None
+        c_ = self.const_of(n)
+        if c_ is not None:
+            return (Fraction(0), c_, frozenset())
+        if n["k"] == "Path" and n.get("local") in self.lin_locals:
+            return self.lin_locals[n["local"]]
+        p_ = self.path_of(n)
+        if p_ is not None:
+            if p_ == self.f:
+                return (Fraction(1), Fraction(0), frozenset())
+            v_ = self.w.get(p_)
+            if v_ is None:
+                return None
+            return (Fraction(0), Fraction(v_), frozenset([p_]))
+        if n["k"] == "Unary" and n["op"] == "-":
+            x = self.lin_of(n["e"], depth + 1)
+            return None if x is None else (-x[0], -x[1], x[2])
+        if n["k"] == "Binary" and n["op"] in ("+", "-", "*", "/"):
+            x, y = self.lin_of(n["l"], depth + 1), self.lin_of(n["r"], depth + 1)
+            if x is None or y is None:
+                return None
+            oth = x[2] | y[2]
+            if n["op"] == "+":
+                return (x[0] + y[0], x[1] + y[1], oth)
+            if n["op"] == "-":
+                return (x[0] - y[0], x[1] - y[1], oth)
+            if n["op"] == "*":
+                if x[0] != 0 and y[0] != 0:
+                    return None
+                return (x[0] * y[1] + y[0] * x[1], x[1] * y[1], oth)
+            if y[0] != 0 or y[1] == 0:
+                return None
+            return (x[0] / y[1], x[1] / y[1], oth)
+        return None
 
     # ---- narrowing conversions: a range test must look at the parameter itself
     def lossy(self, n):
@@ -268,6 +309,17 @@ class Guard:
                     # not restrict the single-parameter region (evaluated as "relation satisfied")
                     self.relations.add((lp, op, rp))
                     return Region.empty(self.integer)
+                # `penalty * l1_ratio < 0`: arithmetic over parameters, linear in the parameter under analysis once the others
+                # are at their witness values (analyse_check_ref repeats the analysis with the boundary values of those others)
+                xl, xr = self.lin_of(n["l"]), self.lin_of(n["r"])
+                if xl is not None and xr is not None and (xl[2] or xr[2] or xl[0] != 0 or xr[0] != 0):
+                    a_, b_ = xl[0] - xr[0], xr[1] - xl[1]
+                    self.coef_params |= set(xl[2] | xr[2])
+                    if a_ == 0:
+                        truth = {"<": 0 < b_, "<=": 0 <= b_, ">": 0 > b_, ">=": 0 >= b_, "==": b_ == 0, "!=": b_ != 0}[op]
+                        return self.full if truth else Region.empty(self.integer)
+                    op2 = op if a_ > 0 else flip[op]
+                    return self.value_region(self.f, op2, b_ / a_, peel_refs(n["l"]))
                 raise Unclassified("comparison with unrecognised operands: %s" % Render(self.c).e(n))
         if kk in ("Field", "Path") and (self.c.ty(n.get("t")) or "") == "bool":
             # a boolean state flag of the builder (not a hyperparameter range): evaluated as "not raised", recorded
@@ -490,6 +542,11 @@ class Guard:
                 i0 = strip(init)
                 if i0.get("k") == "Match" and i0.get("src") == "TryDesugar":
                     return self.try_helper(i0, inp)
+                if i0.get("k") == "Binary" and i0["op"] in ("*", "+", "-", "/") and s["pat"].get("k") == "Bind" and (self.c.ty(i0.get("t")) or "").strip() not in INT_TYPES:
+                    lin = self.lin_of(i0)
+                    if lin is not None and (lin[2] or lin[0] != 0):
+                        self.lin_locals[s["pat"]["local"]] = lin
+                        return inp
                 if i0.get("k") == "Binary" and i0["op"] == "-" and s["pat"].get("k") == "Bind":
                     ap, ac = self.path_of(i0["l"]), self.const_of(i0["r"])
                     ty = (self.c.ty(peel_refs(i0["l"]).get("t")) or "").strip().lstrip("&")
@@ -732,7 +789,26 @@ def analyse_check_ref(fn, builder, table):
             PANICS_FOUND.setdefault(id(fn), {})[p] = repr(g.panics)
         if not (total == g.full):
             raise Unclassified("paths do not cover the domain of `%s`: err=%s ok=%s" % (p, g.err, g.ok))
-        regions[p] = (g.ok, integer, types.get(p))
+        got_ok = g.ok
+        # guards that combine parameters arithmetically were evaluated with the others at one witness: the documented range of p
+        # holds for *every* valid value of the others, so repeat with their boundary values and keep a region that differs
+        for q in sorted(g.coef_params):
+            if q == p or q not in wit:
+                continue
+            q_int = field_is_integer(types.get(q))
+            q_reg = parse_spec(table.get(q, "any"), q_int).intersect(Region.full(q_int, unsigned=q_int))
+            for alt in sorted(x for x in q_reg.boundary_points() if q_reg.contains(x)):
+                w2 = {r_: v for r_, v in wit.items() if r_ != p}
+                w2[q] = alt
+                g2 = Guard(fn, p, w2, integer)
+                try:
+                    g2.run_value(fn["body"], g2.full)
+                except Unclassified:
+                    continue
+                if not (g2.ok == got_ok) and (g2.err.union(g2.ok).union(g2.panics) == g2.full):
+                    got_ok = g2.ok
+                    break
+        regions[p] = (got_ok, integer, types.get(p))
         rel |= g.relations
         opaque |= g.opaque
         LOSSY_FOUND.setdefault(id(fn), set()).update(g.lossy_tests)
